@@ -9,6 +9,7 @@ CONSTANTS
   InitStores <- ValStores
   PublishAfterUnlock = TRUE
   CreatedRevalidated = TRUE
+  DeleteHoldsLock = TRUE
   Equiv = "none"
   SubSer = FALSE
   MayCancel = FALSE
